@@ -162,19 +162,11 @@ def groupKeys (g : Group) : List String :=
       let v := if n.bytes.length = 4 then "v4" else "v6"
       [s!"h.net.{v}.{if n.mask = 0 then "m0" else if n.mask = bits then "max" else if n.mask + 1 = bits then "max-1" else if n.mask = bits + 1 then "max+1" else if n.mask > bits then (if n.mask = 255 then "m255" else "beyond") else if n.mask % 8 = 0 then "octet" else "mid"}"]
 
-def peerKeys (gl : GlobalCfg) (groups : List Group) (pc : PeerCase) : List String :=
+def peerKeysN (gl : GlobalCfg) (groups : List Group) (pc : PeerCase) : List String :=
   let p := pc.params
   let v6 := p.addr.isV6
   let g := pc.group.bind (findGroup groups)
   let own := if p.localAsn != 0 then p.localAsn else gl.asn
-  (if pc.api then
-     [s!"h.api-peer.hold.{holdClass p.hold}",
-      s!"h.api-peer.{match apiPre pc with | some _ => "taken" | none => "refused"}"]
-     ++ key (p.expected = 0 && pc.group.isNone) "h.api-peer.no-as-no-group"
-     ++ key (p.expected = 0 && pc.group.isSome) "h.api-peer.no-as-but-group"
-     ++ key (p.sm.any fun e => e.2 = 255) "h.api-peer.sm.255" ++ key (p.sm.any fun e => e.2 = 256) "h.api-peer.sm.256"
-     ++ key (p.sm.any fun e => e.2 = 0) "h.api-peer.sm.0" ++ key (p.sm.any fun e => e.2 > 256) "h.api-peer.sm.above"
-   else ["h.cfg-peer"]) ++
   [s!"h.peer.{if v6 then "v6" else "v4"}", s!"h.peer.hold.{holdClass p.hold}",
    s!"h.peer.expected.{expClass gl own p.expected}",
    s!"h.peer.local-as.{if p.localAsn = 0 then "0" else if p.localAsn = gl.asn then "global-as" else asClass p.localAsn}",
@@ -203,6 +195,19 @@ def peerKeys (gl : GlobalCfg) (groups : List Group) (pc : PeerCase) : List Strin
           if !p.rrClient && g.rrClient then s!"h.inherit.rr.taken.cluster-{clusterClass g.cluster}" else "h.inherit.rr.not" ]
         ++ key (p.fams.isEmpty && !p.sm.isEmpty) "h.inherit.fams.own-sm-dropped"
         ++ key (!p.rrClient && g.rrClient && p.cluster.isSome) "h.inherit.rr.own-cluster-replaced")
+
+/-- an API neighbour: the request as given, then (when it is taken) the configuration it stands for -/
+def peerKeys (gl : GlobalCfg) (groups : List Group) (pc : PeerCase) : List String :=
+  let p := pc.params
+  (if pc.api then
+     [s!"h.api-peer.hold.{holdClass p.hold}",
+      s!"h.api-peer.{match apiPre pc with | some _ => "taken" | none => "refused"}"]
+     ++ key (p.expected = 0 && pc.group.isNone) "h.api-peer.no-as-no-group"
+     ++ key (p.expected = 0 && pc.group.isSome) "h.api-peer.no-as-but-group"
+     ++ key (p.sm.any fun e => e.2 = 255) "h.api-peer.sm.255" ++ key (p.sm.any fun e => e.2 = 256) "h.api-peer.sm.256"
+     ++ key (p.sm.any fun e => e.2 = 0) "h.api-peer.sm.0" ++ key (p.sm.any fun e => e.2 > 256) "h.api-peer.sm.above"
+   else ["h.cfg-peer"])
+  ++ (match apiPre pc with | some n => peerKeysN gl groups n | none => [])
 
 def roleName : PeerRole → String
   | .ebgp => "ebgp" | .ibgp => "ibgp" | .rrClient => "rr-client" | .rsClient => "rs-client" | .confed => "confed"
